@@ -59,6 +59,9 @@ pub fn project(schema: &str, op: &str) -> Result<(), Failure> {
     let g = glue();
     let sf = vec![(PathBuf::from("/p/s.graphql"), schema.to_string())];
     let of = vec![(PathBuf::from("/p/o.graphql"), op.to_string())];
+    if !g.strict && g.excluded.contains("generate_exponential_nested_merge") && c08::exponential_generate(&sf, &of) {
+        return Ok(());
+    }
     let cfg = &g.cfgs[(schema.len() + op.len()) % g.cfgs.len()];
     c08::run_pipeline(&sf, &of, cfg, &Value::Null).map(|_| ())
 }
@@ -71,4 +74,27 @@ pub fn structured(data: &[u8]) -> Result<(), Failure> {
     let which = data[0] % 5;
     let mut case = Case::new(Choices::from_bytes(&data[1..]), &g.excluded, false);
     c08::pipeline_case(&mut case, "structured", which, &g.cfgs)
+}
+
+/// like `structured`, printing the generated texts first (debugging aid for artifacts)
+pub fn structured_verbose(data: &[u8]) -> Result<(), Failure> {
+    if data.is_empty() {
+        return Ok(());
+    }
+    let g = glue();
+    let which = data[0] % 5;
+    let mut case = Case::new(Choices::from_bytes(&data[1..]), &g.excluded, true);
+    let t0 = std::time::Instant::now();
+    let t = c08::gen_texts(&mut case, which);
+    println!("generated in {:?} (mode {})", t0.elapsed(), t.mode);
+    for (p, s) in t.schema.iter().chain(t.ops.iter()) {
+        println!("--- {} ({} bytes)\n{}", p.display(), s.len(), s);
+    }
+    let st: Vec<&str> = t.schema.iter().map(|x| x.1.as_str()).collect();
+    let ot: Vec<&str> = t.ops.iter().map(|x| x.1.as_str()).collect();
+    println!("work estimate: {}", c08::work_estimate_texts(&st, &ot, u64::MAX / 4));
+    let t1 = std::time::Instant::now();
+    let r = c08::run_pipeline(&t.schema, &t.ops, &g.cfgs[0], &Value::Null).map(|r| println!("reached {r:?}"));
+    println!("pipeline in {:?}", t1.elapsed());
+    r
 }
